@@ -77,6 +77,8 @@ type DepositStore struct {
 	store.AccountStore
 	Deposits map[store.Account]*big.Int
 	W        *PoolWorld
+	// FailBalanceOps: that many of the next balance updates fail (the ledger store is unreachable)
+	FailBalanceOps int
 
 	cp   store.BalanceStore
 	emit func(store.Account, *big.Int)
@@ -137,12 +139,20 @@ func (d *DepositStore) sync() {
 
 func (d *DepositStore) AddAccountBalance(a store.Account, c *big.Int) error {
 	d.point("AddAccountBalance")
+	if d.FailBalanceOps > 0 {
+		d.FailBalanceOps--
+		return errors.New("balance store failure (injected)")
+	}
 	d.sync()
 	return d.cp.AddAccountBalance(a, c)
 }
 
 func (d *DepositStore) AddNodeBalance(id store.NodeID, c *big.Int) error {
 	d.point("AddNodeBalance")
+	if d.FailBalanceOps > 0 {
+		d.FailBalanceOps--
+		return errors.New("balance store failure (injected)")
+	}
 	d.sync()
 	return d.cp.AddNodeBalance(id, c)
 }
